@@ -68,4 +68,15 @@ theorem hbStep_refines (pt : Int) (b : String) (s : St D) (hb : Ev D) (m : Meta)
       · rw [hview]; exact Spec.onEvents_self hv
       · intro b' hb'; rw [hview]; exact Spec.frame_replaceId hb'
 
+/-! ## a concrete state: two populated buckets and the empty bucket "c" -/
+
+def exHb : St Nat :=
+  { buckets := [⟨1, "a", Example.m0⟩, ⟨2, "b", Example.m0⟩, ⟨3, "c", Example.m0⟩]
+    events := [⟨1, 1, 10, 5, 7⟩, ⟨2, 2, 10, 0, 8⟩, ⟨3, 1, 10, 1, 9⟩]
+    keys := [("a", 1), ("b", 2), ("c", 3)] }
+
+theorem exHb_inv : Inv exHb := ⟨by decide, by decide, by decide, rfl, by decide⟩
+
+theorem exHb_view : view exHb "c" = some (Example.m0, []) := rfl
+
 end Aw.Store.Peewee
